@@ -271,7 +271,7 @@ def cli_crosscheck(res: Result, ctx: Ctx, mod, modname: str, metas, n: int, mi: 
         res.evaluations += 1
         case = {"module_index": mi, "strategy": s, "traced_mask": tm, "result": rk, "tier": ctx.tier, "cli": True}
         try:
-            rc = cli.main(["-c", "mcfg:CONFIG", "stub", modname] + flags, out, err)
+            rc = cli.main(["-c", "mcfg:fresh()", "stub", modname] + flags, out, err)
             want = build_module_stubs_from_traces(traces, 0, existing_annotation_strategy=S[s])[modname].render()
         except Exception as e:  # noqa: BLE001
             res.violate(Violation(ID, "exception", "cli", case, f"cli raised {e!r}"))
